@@ -429,8 +429,10 @@ impl<const N: usize> SlotManager<N> {
     ) -> Result<Updater, ManagerError<T::Error>> {
         self.is_reasonably_sized(segment_size, firmware_segments)?;
 
-        let parity_segments =
-            (self.slot_size.saturating_sub(DATA_REGION_OFFSET) as u32) / segment_size;
+        // a header cannot announce more than MAX_SEGMENTS segments
+        let parity_segments = ((self.slot_size.saturating_sub(DATA_REGION_OFFSET) as u32)
+            / segment_size)
+            .min(crate::manager::layout::segment_status_table::MAX_SEGMENTS as u32);
 
         let (mut firmware_slot, mut parity_slot) = self.alloc_slotpair(flash, scratch).await?;
         firmware_slot.set_kind(Kind::Firmware, flash).await?;
